@@ -198,7 +198,7 @@ theorem simpleJ_nonadjacent {j : Jordan} (h : simpleJ j = true) (i k : Nat) (e f
 theorem append_eq_nil' {α} {a b : List α} (h : a ++ b = []) : a = [] ∧ b = [] := List.append_eq_nil_iff.mp h
 
 theorem wfConnected_nil {js : List Jordan} (h : wfConnected js = []) :
-    2 ≤ js.length ∧ (∀ j ∈ js, simpleJ j = true) ∧ (js.filter Jordan.ccw).length ≤ 1 ∧
+    2 ≤ js.length ∧ (∀ j ∈ js, curveOK j = true) ∧ (js.filter Jordan.ccw).length ≤ 1 ∧
     (∀ o ∈ js.filter Jordan.ccw, ∀ hl ∈ js.filter (fun j => !j.ccw),
         (curveRel hl o).2.1 = 0 ∧ (curveRel hl o).2.2 = 0) ∧
     (∀ hi ∈ (js.filter (fun j => !j.ccw)).zipIdx, ∀ hk ∈ (js.filter (fun j => !j.ccw)).zipIdx,
@@ -210,7 +210,7 @@ theorem wfConnected_nil {js : List Jordan} (h : wfConnected js = []) :
   · by_cases hl : js.length < 2
     · simp [hl] at h1
     · omega
-  · by_cases ha : js.all simpleJ = true
+  · by_cases ha : js.all curveOK = true
     · exact fun j hj => (List.all_eq_true.mp ha) j hj
     · simp [ha] at h2
   · by_cases hc : (js.filter Jordan.ccw).length ≤ 1
@@ -243,9 +243,9 @@ theorem wfConnected_nil {js : List Jordan} (h : wfConnected js = []) :
       · exact hz
       · have := h9.2; simp [hz] at this
 
-theorem wfProblems_simple {j : Jordan} (h : wfProblems (.simple j) = []) : simpleJ j = true := by
+theorem wfProblems_simple {j : Jordan} (h : wfProblems (.simple j) = []) : curveOK j = true := by
   unfold wfProblems at h
-  by_cases hs : simpleJ j = true
+  by_cases hs : curveOK j = true
   · exact hs
   · simp [hs] at h
 
@@ -255,7 +255,7 @@ theorem wfProblems_connected {js : List Jordan} (h : wfProblems (.connected js) 
 theorem wfProblems_disjoint {cs : List (List Jordan)} (h : wfProblems (.disjoint cs) = []) :
     2 ≤ cs.length ∧ componentsDisjoint cs = true ∧
     (∀ c ∈ cs, c ≠ []) ∧
-    (∀ c ∈ cs, ∀ j, c = [j] → simpleJ j = true) ∧
+    (∀ c ∈ cs, ∀ j, c = [j] → curveOK j = true) ∧
     (∀ c ∈ cs, 2 ≤ c.length → wfConnected c = []) := by
   unfold wfProblems at h
   simp only [List.append_eq_nil_iff] at h
@@ -275,7 +275,7 @@ theorem wfProblems_disjoint {cs : List (List Jordan)} (h : wfProblems (.disjoint
   · intro c hc j hj
     have := h2 c hc
     rw [hj] at this
-    by_cases hs : simpleJ j = true
+    by_cases hs : curveOK j = true
     · exact hs
     · simp [hs] at this
   · intro c hc hlen
